@@ -600,7 +600,11 @@ func (s *simSession) runData(ev *BEvent, r io.Reader, p *DataPlan, sc smtp.Statu
 			}
 		}
 	}
-	if p.ContentVerdict && ev.termErr != nil {
+	if p.ContentVerdict && ev.termErr != nil && ev.termErr != smtp.ErrDataReset {
+		// (a reader error of its own kind - the size limit, a timeout - is passed on as it is)
+		err = ev.termErr
+	}
+	if p.ContentVerdict && ev.termErr == smtp.ErrDataReset {
 		// an aborted delivery reports an error that names the message it belonged to
 		tag := "empty"
 		if i := strings.Index(string(ev.Read), "msg-"); i >= 0 {
